@@ -541,7 +541,7 @@ func indent(s string) string {
 
 func main() {
 	pkgPath := flag.String("pkg", "", "Go package path (loaded from -dir)")
-	dir := flag.String("dir", "/repo", "module directory")
+	dir := flag.String("dir", repoDir(), "module directory (default $VERIF_REPO or /repo)")
 	ns := flag.String("ns", "Gen", "Lean namespace")
 	out := flag.String("o", "", "output .lean file")
 	manifest := flag.String("manifest", "", "output manifest json (function -> source hash, status)")
@@ -691,6 +691,13 @@ func main() {
 		mj, _ := json.MarshalIndent(man, "", " ")
 		os.WriteFile(*manifest, mj, 0644)
 	}
+}
+
+func repoDir() string {
+	if d := os.Getenv("VERIF_REPO"); d != "" {
+		return d
+	}
+	return "/repo"
 }
 
 func writeIfChanged(path, content string) {
